@@ -380,6 +380,25 @@ func (c *Ctl) Drain(maxSteps int, quantum time.Duration, done func() bool) bool 
 	return done()
 }
 
+// Settle fires every enabled event (faults off, no clock advance) until none
+// is left or max steps were taken: lets in-flight bytes arrive and parked
+// goroutines finish before end-of-run oracles read logs.
+func (c *Ctl) Settle(max int) {
+	c.NoFaults = true
+	for i := 0; i < max; i++ {
+		synctest.Wait()
+		evs := c.enabled()
+		if len(evs) == 0 {
+			return
+		}
+		c.Step++
+		ev := evs[i%len(evs)]
+		c.Logf("settle fire %s", ev.Key)
+		ev.Fire()
+	}
+	synctest.Wait()
+}
+
 func actorRole(a string) string {
 	// strip trailing digits / ids so fingerprints group by role
 	i := len(a)
